@@ -1,6 +1,7 @@
 (* Extraction of the regress-log model for the correspondence driver.
    ExtrOcamlBasic only; no Extract Constant; N/positive/nat stay Coq datatypes. *)
 From Coq Require Import Extraction ExtrOcamlBasic.
-From Robsd Require Import RegressLog.RLDefs RegressLog.RLSpec.
+From Robsd Require Import RegressLog.RLDefs RegressLog.RLSpec RegressLog.RLCallDefs.
 Extraction Language OCaml.
-Extraction "rl_model.ml" main parse peek trim spec_main spec_ok_main spec_ok_peek.
+Extraction "rl_model.ml" main parse peek trim spec_main spec_ok_main spec_ok_peek
+  regress_failed step_exec_exit html_status hfailure.
